@@ -493,6 +493,13 @@ func runLockScenario(sc lockScenario) lockResult {
 			for rd := 0; rd < sc.rounds; rd++ {
 				key := keys[rng.Intn(len(keys))]
 				lctx := ctx
+				var endCtx context.CancelFunc
+				if sc.kind == "ctx-ends-after-lock" && i == 0 && rd == 0 {
+					// the context handed to Lock ends right after Lock has returned (a request-scoped
+					// context): the lock is still held and has to be kept alive until Unlock
+					lctx, endCtx = context.WithCancel(ctx)
+					defer endCtx()
+				}
 				impatient := sc.kind == "impatient-waiters" && i > 0
 				if impatient {
 					// a waiter that gives up: its context ends while another instance holds the lock
@@ -515,6 +522,11 @@ func runLockScenario(sc lockScenario) lockResult {
 					return
 				}
 				hold := sc.holdMin + time.Duration(rng.Int63n(int64(sc.holdMax-sc.holdMin)+1))
+				if endCtx != nil {
+					endCtx()
+					addAPI(apiCall{"lock-context-ended", i, key, mono(), mono(), ""})
+					hold = sc.ttl * 17 / 10 // well past one lease: only renewals keep the lock
+				}
 				if sc.kind == "lost-renewals" && i == 0 && rd == 0 {
 					// this holder loses the store: its renewals fail, it keeps "holding" well beyond the lease
 					in.kv.failRenew.Store(true)
@@ -723,6 +735,27 @@ func judgeLocks(r *ev.Run, res lockResult) {
 				// (only count the case where A really still was between Lock and Unlock)
 				expiredTakeovers++
 				uncertain++
+				// ... unless A simply stopped keeping its lock alive: a holder that has not unlocked and
+				// reaches the store renews; if it issued no renewal at all over at least three renewal
+				// intervals (TTL/4 each) before the take-over, the lock was lost by the storage, not by the lease
+				if sc.kind == "ctx-ends-after-lock" && a.Inst == 0 {
+					var ended time.Duration = -1
+					for _, x := range res.api {
+						if x.Op == "lock-context-ended" && x.Inst == 0 && x.Key == a.Key {
+							ended = x.Call
+						}
+					}
+					renews := 0
+					for _, c := range res.kv {
+						if c.Inst == 0 && c.Lease == lease && c.Op == "renew" && ended >= 0 && c.Call >= ended && c.Call <= b.Ret {
+							renews++
+						}
+					}
+					if ended >= 0 && renews == 0 && b.Ret-ended >= sc.ttl*3/4 {
+						wit["holder_lock"] = a
+						r.Violation("holder-stopped-renewing-while-holding", caseName, fmt.Sprintf("%s: instance 0 holds Lock(%q) (its Lock context ended at %v, Unlock not called yet) and issued no lease renewal during the %v until instance %d obtained the lock at %v: the lease ran out under a live holder", caseName, a.Key, ended, b.Ret-ended, b.Inst, b.Ret), wit)
+					}
+				}
 				continue
 			}
 			wit["holder_lock"] = a
@@ -760,7 +793,7 @@ func partB(r *ev.Run) {
 	var scs []lockScenario
 	for i := 0; i < n; i++ {
 		sc := lockScenario{id: i, nInst: 2 + rng.Intn(3), ttl: time.Second, rounds: 2, seed: rng.Int63()}
-		sc.kind = []string{"handoff", "impatient-waiters", "lost-renewals", "two-keys", "handoff"}[i%5]
+		sc.kind = []string{"handoff", "impatient-waiters", "lost-renewals", "two-keys", "ctx-ends-after-lock"}[i%5]
 		if i%5 == 4 {
 			sc.ttl = 2 * time.Second
 		}
@@ -796,7 +829,7 @@ func partB(r *ev.Run) {
 func main() {
 	r := ev.Start("C49", "exploration")
 	r.SetMaxSamples(6)
-	r.SetRule("files: per scenario (1-3 storage instances over one real single-node chord ring on kv/memory) a seeded history of Store/Delete/Load+Exists+Stat/List over keys of 0-3 directory segments dNN and a file segment fNN.pem, one in four through a bNN segment that is itself stored and/or has a file below it (a child that is both a stored key and a parent), non-empty values, distinct by (operation, overwrite / key state stored|deleted|never, depth, number of file / directory / file-and-directory children, trailing slash); locks: scenarios {handoff, impatient-waiters (waiters whose context ends after 0.15-0.4 TTL while another instance holds the lock: a Lock that returns success must still be backed by its own acquisition), lost-renewals (a holder's renewals fail while it keeps holding), two-keys} x 2-4 instances x lease TTL {1s,2s}, each instance locking, holding 0.3-0.9 TTL and unlocking in rounds, distinct by (kind, instances, ttl, contention observed, takeover after possible expiry observed); every renewal issued and answered inside the holder's own certainly-valid lease must be granted")
+	r.SetRule("files: per scenario (1-3 storage instances over one real single-node chord ring on kv/memory) a seeded history of Store/Delete/Load+Exists+Stat/List over keys of 0-3 directory segments dNN and a file segment fNN.pem, one in four through a bNN segment that is itself stored and/or has a file below it (a child that is both a stored key and a parent), non-empty values, distinct by (operation, overwrite / key state stored|deleted|never, depth, number of file / directory / file-and-directory children, trailing slash); locks: scenarios {handoff, impatient-waiters (waiters whose context ends after 0.15-0.4 TTL while another instance holds the lock: a Lock that returns success must still be backed by its own acquisition), lost-renewals (a holder's renewals fail while it keeps holding), two-keys, ctx-ends-after-lock (the context given to Lock ends once Lock has returned while the lock is held for 1.7 TTL: the holder must go on renewing)} x 2-4 instances x lease TTL {1s,2s}, each instance locking, holding 0.3-0.9 TTL and unlocking in rounds, distinct by (kind, instances, ttl, contention observed, takeover after possible expiry observed); every renewal issued and answered inside the holder's own certainly-valid lease must be granted")
 	r.Assume("segments of one kind have equal length (siblings that are string prefixes of each other are outside the statement), values are non-empty; a key that is both stored and the parent of deeper keys is judged only as a child in its parent's non-recursive listing (exactly once); Load/Exists/Stat of such a key and listing it as the prefix are not judged; a missing directory may list empty or fail with fs.ErrNotExist")
 	r.Assume("lock oracle: instance A certainly holds during [x,y] iff its Lock returned before x, its Unlock was not called by y and the windows [return_i, call_i + floor_seconds(ttl)) of its successful Acquire/Renew calls cover [x,y]; anything else (over-slept or failed renewal) counts as 'lease may have expired' and is not judged")
 	r.Assume("the DHT is a single-node ring (no remote hops, no ownership change during the history)")
